@@ -365,6 +365,34 @@ fn container_leg(seed: u64) -> (u64, Vec<String>) {
                 }
             }
         }
+        // every finalising form of the incremental generic hash, for several digest lengths:
+        // stack, Vec (finalize and finalize_to_vec) and heap outputs must be identical
+        for len in [0usize, 1, 127, 128, 129, 300] {
+            let m = cval(seed, 3, len);
+            macro_rules! fin {
+                ($o:literal) => {{
+                    let mk = || {
+                        let mut h = GenericHash::<32, $o>::new(Some(&ks.k)).unwrap();
+                        h.update(&m);
+                        h
+                    };
+                    let a: StackByteArray<$o> = mk().finalize().unwrap();
+                    let b: Vec<u8> = mk().finalize().unwrap();
+                    let c: Vec<u8> = mk().finalize_to_vec().unwrap();
+                    let d: HeapByteArray<$o> = mk().finalize().unwrap();
+                    let e: Vec<u8> = GenericHash::<32, $o>::hash_to_vec(&m, Some(&ks.k)).unwrap();
+                    n += 5;
+                    if !(a.as_slice() == &b[..] && b == c && d.as_slice() == &b[..] && b == e) {
+                        bad.push(format!("GenericHash<32,{}> finalising forms at len {}: stack / Vec / finalize_to_vec / heap / hash_to_vec disagree", $o, len));
+                    }
+                }};
+            }
+            fin!(16);
+            fin!(20);
+            fin!(32);
+            fin!(48);
+            fin!(64);
+        }
         // the same serialised bytes decoded into Vec, HeapBytes and Locked<HeapBytes> (JSON: no
         // size hint, element sequence; bincode: byte string) must give identical bytes
         for len in (0..=130usize).chain([255, 256, 257, 1024, 4096, 4097]) {
